@@ -1098,6 +1098,13 @@ class Interp:
                     return LP.const(1 if name == "ones" else 0)  # a 0-d array
                 if shp and all(isinstance(x, int) for x in shp):
                     return Table.full(shp, lambda idx: LP.const(1 if name == "ones" else 0))
+            if name == "flatnonzero" and len(e.args) == 1 and not e.keywords:
+                v_ = self.ev(e.args[0], env)
+                if isinstance(v_, Table) and len(v_.shape) == 1 and all(isinstance(x, bool) for x in v_.data.values()):
+                    return [i_ for i_ in range(v_.shape[0]) if v_.data[(i_,)]]
+                if isinstance(v_, bool):
+                    return [0] if v_ else []
+                raise Unknown("flatnonzero of this")
             if name == "fill_diagonal" and len(e.args) == 2 and not e.keywords:
                 m_, v_ = self.ev(e.args[0], env), self.ev(e.args[1], env)
                 if isinstance(m_, Table) and len(m_.shape) == 2 and isinstance(v_, (int, LP)) and not isinstance(v_, bool):
@@ -4018,4 +4025,71 @@ def rule_conic_line(run: Run, prog: Program) -> int:
                     "the point pair is handed to `components` as a quadric of the same kind as the conic: its components are then read as lines, not as points", fn.loc)
         else:
             run.add("E19.isect", fn.short, label, PROVEN, "the matrix handed to `components` is the symmetric product of the two intersection points, as a quadric of the other kind", fn.loc)
+    return n_ob
+
+
+# ---------------------------------------------------------------------------------------------- equality of polygons up to rotation / reversal (C17)
+def rule_polytope_eq(run: Run, prog: Program) -> int:
+    run.rule("E19.eq", "PolytopeTensor.__eq__ interpreted for a symbolic triangle and quadrilateral of the plane against every permutation of their vertices, each vertex "
+                       "of the other operand given by a representative of its own (row k scaled by w_k): the answer is True exactly for the rotations of the vertex "
+                       "cycle and of its reversal (all 6 permutations of a triangle, 8 of the 24 of a quadrilateral)")
+    cls = prog.find_cls("PolytopeTensor")
+    fn = prog.lookup(cls, "__eq__") if cls else None
+    if fn is None:
+        run.add("E19.eq", "PolytopeTensor.__eq__", "vertex cycles", UNDECIDED, "PolytopeTensor.__eq__ not found", "")
+        return 0
+    fn = prog.body_of(fn)
+    kinds = {c.name for c in prog.classes.values() if any(b is cls for b in prog.mro(c))} | {"PolytopeTensor", "Tensor", "ProjectiveTensor"}
+
+    def is_multiple(a_, k_):
+        # rows that are multiples of each other, as polynomials (the arguments are in general position): one truth value per row
+        if (len(a_) >= 2 and isinstance(a_[0], Table) and isinstance(a_[1], Table) and len(a_[0].shape) == 2 and len(a_[1].shape) == 2 and a_[0].shape[1] == a_[1].shape[1]
+                and (a_[0].shape[0] == a_[1].shape[0] or 1 in (a_[0].shape[0], a_[1].shape[0])) and k_.get("axis", -1) in (-1, 1)):
+            rows, cols = max(a_[0].shape[0], a_[1].shape[0]), a_[0].shape[1]
+            out = {}
+            for r in range(rows):
+                x = [a_[0].data[(r if a_[0].shape[0] > 1 else 0, c)] for c in range(cols)]  # (a single row is broadcast against the rows of the other operand)
+                y = [a_[1].data[(r if a_[1].shape[0] > 1 else 0, c)] for c in range(cols)]
+                out[(r,)] = all((x[i] * y[j] - x[j] * y[i]).is_zero() for i in range(cols) for j in range(i + 1, cols))
+            return Table((rows,), out)
+        return Opaque("is_multiple")
+    n_ob = 0
+    for n in (3, 4):
+        n_ob += 1
+        label = "a triangle of the plane" if n == 3 else "a quadrilateral of the plane"
+        verts = Table.full((n, 3), lambda idx: LP.sym(f"v{idx[0]}{idx[1]}"))
+        dihedral = {tuple((s + d * k) % n for k in range(n)) for s in range(n) for d in (1, -1)}
+        wrong, unread, first = [], 0, None
+        for perm in itertools.permutations(range(n)):
+            other_t = Table.full((n, 3), lambda idx: LP.sym(f"w{idx[0]}") * verts.data[(perm[idx[0]], idx[1])])
+            me = ObjSym(cls, array=verts.copy(), shape=(n, 3), pdim=2, dim=2, free_indices=0)
+            me.__dict__["kinds"] = kinds
+            ot = ObjSym(cls, array=other_t, shape=(n, 3), pdim=2, dim=2, free_indices=0)
+            ot.__dict__["kinds"] = kinds
+            it = Interp(prog, cls, {})
+            it.generic = True
+            it.hooks = {"is_multiple": is_multiple}
+            try:
+                got = it.run_method(fn, me, [ot], {})
+            except (Unknown, NotPolynomial, RecursionError, KeyError, IndexError, TypeError, AttributeError) as ex:
+                unread += 1
+                first = first or f"{type(ex).__name__}: {str(ex)[:80]}"
+                continue
+            if not isinstance(got, bool):
+                unread += 1
+                first = first or f"the answer is not a truth value ({getattr(got, 'why', type(got).__name__)[:60]})"
+                continue
+            if got != (perm in dihedral):
+                wrong.append((perm, got))
+        loc = fn.loc
+        total = len(list(itertools.permutations(range(n))))
+        if wrong:
+            perm, got = wrong[0]
+            run.add("E19.eq", fn.short, label, VIOLATION,
+                    f"{len(wrong)} of {total} vertex orders are answered wrongly, e.g. the order {perm} of the same vertices compares {'equal' if got else 'unequal'}"
+                    f" although it is {'not ' if got else ''}a rotation of the vertex cycle or of its reversal", loc)
+        elif unread:
+            run.add("E19.eq", fn.short, label, UNDECIDED, f"{unread} of {total} vertex orders not read ({first})", loc)
+        else:
+            run.add("E19.eq", fn.short, label, PROVEN, f"{total} vertex orders, each vertex with a representative of its own: equal exactly for the {len(dihedral)} rotations of the cycle and of its reversal", loc)
     return n_ob
